@@ -31,6 +31,16 @@ BOUNDS["C02"] = {
     "thorough": "L <= 3; six bit-flip shapes, both suites",
     "outside": "other public key, cross-suite and cross-interface re-interpretation, message insert/delete/swap as explicit runs (they follow from the equivalence plus the random-oracle assumption)",
 }
+BOUNDS["C03"] = {
+    "quick": "(L, disclosed set) in {(0,{}), (1,{}), (1,{0}), (2,{0}), (2,{1}), (2,{0,1}), (3,{0,2}), (3,{1,2}), (3,{0,1})} with ascending / descending / duplicated index presentation, header and ph None/empty/1/2 octets, one suite per shape by seed",
+    "thorough": "every (L <= 3, subset) with at most one undisclosed message, both suites",
+    "outside": "two or more undisclosed messages; L > 3; symbolic sk / e / challenge / blinding (fixed values, see level_note)",
+}
+BOUNDS["C04"] = {
+    "quick": "the C03 shapes x {message edit, header edit, ph edit, index move} where applicable",
+    "thorough": "as C03 thorough",
+    "outside": "bit flips of proof octets, scalar-granular truncation/extension (length strictness is C09), other public key, forgeries built without a signature, serde-deserialized proofs",
+}
 ASSUMPTIONS = {
     "*": [
         "bls12_381_plus is replaced by a prime-order bilinear group model (elements = discrete logs mod Q, Q in {13,31,251}); its real field/curve/pairing arithmetic and codecs are outside the claim",
@@ -44,6 +54,8 @@ ASSUMPTIONS = {
         "declared counts (n of update_signature) count as input size",
     ],
     "C09": [],
+    "C03": ["programmed random oracle with octet capture of the two challenge queries", "rand model returns a fixed table of distinct non-zero values (feature fixedrand)", "sk = 5, e = 9, challenge state 77 concrete", "B != identity"],
+    "C04": ["as C03", "distinct oracle queries get independent answers"],
     "C01": ["programmed random oracle: expand_message answers are unconstrained symbols (feature prog of the elliptic-curve model, one static struct)", "stub Generators::create -> fixed pure table", "sk + e != 0, B != identity (inversion of zero is assumed away in the model under Kani)"],
     "C02": ["as C01", "distinct oracle queries have distinct answers (random-oracle / collision-resistance assumption) where an edit is argued to change B"],
     "C10": ["the reference transcription (harness/src/reference.rs) is validated against all fixture files of both suites on the real crates by `zkreplay fixtures` (60 values)"],
